@@ -26,6 +26,49 @@ def run(ctx, config):
     rules.append(D.rule_output_bounds(P, "name_parse", "C33-name-out"))
     rules.append(D.rule_alloc_use(P, ["reply_parse"], "C33-alloc"))
 
+    # ---- K4: writes into the reply buffer are covered by its size
+    rc = Rule("C33-capacity", "K4", "every copy into the reply data buffer is covered by the buffer's size: a capacity test, or a buffer sized by the rest of the packet for copies taken from the packet", floor=2)
+    f0 = P.fn("reply_parse")
+    sizev = None
+    for el in f0.calls():
+        if callee_name(el.e) in ("event_mm_malloc_", "malloc"):
+            for nx in f0.blocks[el.bid].elems[el.idx + 1:el.idx + 2]:
+                if nx.e[0] == "asg" and is_e(strip(nx.e[2]), "fld") and strip(nx.e[2])[2].startswith("reply::data"):
+                    sizev = strip(el.e[2][0])
+                    alloc = el
+    if sizev is None or not is_e(sizev, "var"):
+        rc.brk("the allocation of the reply data buffer (or its size variable) was not recognised")
+    else:
+        defs = f0.var_stores(sizev[1])
+        rem_ok = False
+        want = {key(["var", "length", "param"]): 1, key(["var", "j", "local"]): -1}
+        for d, rhs in defs:
+            for q in walk(rhs):
+                if is_e(q, "cond") or (is_e(q, "bin") and q[1] in ("+",)):
+                    for operand in q[2:4] if is_e(q, "cond") else []:
+                        if D.linear(operand) == want:
+                            rem_ok = True
+        # j must not move backwards between the sizing and the copies: only += / ++ / assignment from name_parse
+        rc.inst("sizing", {"size_variable": sizev[1], "definitions": [show(d.e)[:70] for d, _ in defs], "at_least_rest_of_packet": rem_ok})
+        for el in f0.calls("memcpy"):
+            dst = strip(el.e[2][0])
+            if is_e(dst, "addr"):
+                dst = strip(dst[1])
+            rv = root_var(dst)
+            if rv is None or rv[1] != "reply":
+                continue
+            src = strip(el.e[2][1])
+            from_packet = is_e(src, "bin") and src[1] == "+" and eq(strip(src[2]), ["var", "packet", "param"])
+            gs = [negate_truth(c, t) for c, t, _ in f0.guards_at(el.bid)]
+            cap = any(any(is_e(q, "var") and q[1] == sizev[1] for q in walk(c)) for c, t in gs)
+            ok = cap or (rem_ok and from_packet)
+            rc.inst(("copy", el.n), {"site": el.where(), "copy": show(el.e)[:80], "capacity_test": cap, "source_is_packet": from_packet})
+            if not ok:
+                rc.bad("K4:reply_parse:reply-buffer-copy-uncovered", el.where(), f0.name,
+                       "%s writes into the reply buffer, whose size (%s) is neither tested here nor at least the rest of the packet: a record with a long RDATA overflows the heap buffer"
+                       % (show(el.e)[:60], "; ".join(show(r_)[:50] for _, r_ in defs)))
+    rules.append(rc)
+
     # ---- K3: acceptance gating
     r = Rule("C33-match", "K3", "reply data reaches reply_handle only after the transaction id, the QR bit and the question matched", floor=4)
     f = P.fn("reply_parse")
